@@ -1000,7 +1000,8 @@ class HistogramBase(abc.ABC):
         warnings.warn("Subtracting histograms is considered to be a bad idea.")
         if isinstance(other, HistogramBase):
             if config.free_arithmetics:
-                self += other * (-1)
+                # -1 in the operand's own content type: a python int would widen it to int64 first
+                self += other * other.dtype.type(-1)
             else:
                 adapted_self = self + 0 * other
                 adapted_other = 0 * self + other
